@@ -33,6 +33,9 @@ Harness
 * pre/post commands are symbolic in the case (`mark:T`, `true`, `false`,
   `export:K=V`) and rendered to shell: a mark appends `<rank>:<sig>:T` to the
   marker file;
+* `radical-pilot-control` ($RP_CTRL, found by the real `initialize()` through
+  $PATH) is a stand-in which records `<rank> <args>`: with a non-zero
+  `startup_timeout` the exec script reports the start-up -- once, by rank 0;
 * launchers: FORK with 1 rank, MPIRUN with 2 and 3 ranks (thorough: also 1).
   Wherever the exec script switches on $RP_RANK (per-rank pre_exec /
   post_exec dicts, CUDA_VISIBLE_DEVICES of the slots) there are 3-rank
@@ -251,13 +254,27 @@ FIELDS = {
     'name'  : ([None, 'my task'], [None, 'my task'], None),
     'sbox'  : (['in', 'out'], ['in', 'out'], None),
     'start' : (['popen', 'script'], ['popen', 'script'], None),
+    # startup_timeout: the exec script reports the start-up via $RP_CTRL
+    'startup': ([0, 5], [0, 5], None),
 }
 
 BASE = {'lm': 'FORK', 'ranks': 1,
         'exe': 'abs', 'args': ['a'], 'env': [], 'stdout': '', 'stderr': '',
         'pre': ['mark:A'], 'post': ['mark:Z'], 'gpus': 0, 'cpr': 1,
         'sync': False, 'exit': 0, 'name': None, 'sbox': 'in',
-        'start': 'popen'}
+        'start': 'popen', 'startup': 0}
+
+# fields whose effect depends on the rank or on the number of ranks (per-rank
+# switches, barrier, start-up notice by rank 0, exit status of several ranks,
+# output streams shared by the ranks)
+RANK_FIELDS = ('pre', 'post', 'gpus', 'sync', 'startup', 'exit',
+               'stdout', 'stderr')
+
+# quick tier, several ranks: argument / environment values which enter the
+# products of field pairs (all values are still varied alone)
+QUICK_MINI = {'args': [[], ['a b'], [''], ['*'], ['$RP_TASK_ID']],
+              'env' : [[], [[ENV_NAMES[0], 'a b']],
+                           [[ENV_NAMES[0], 'say "hi"']]]}
 
 LAUNCHERS_QUICK    = [('FORK', 1), ('MPIRUN', 2), ('MPIRUN', 3)]
 LAUNCHERS_THOROUGH = [('FORK', 1), ('MPIRUN', 2), ('MPIRUN', 3), ('MPIRUN', 1)]
@@ -423,6 +440,11 @@ done
 exit $ret
 '''
 
+# stand-in for radical-pilot-control ($RP_CTRL): records who called it how
+CTRL_SH = '''#!/bin/sh
+echo "${PMIX_RANK:-0} $*" >> '%(obs)s/ctrl'
+'''
+
 # `sleep 1` of the rank barrier polls faster (virtual clock)
 SLEEP_SH = '''#!/bin/sh
 exec %(sleep)s 0.02
@@ -465,6 +487,8 @@ class World(object):
         _write(self.psbox + '/env/lm_fork.sh',   'export C10_LM_ENV=fork\n')
         _write(self.psbox + '/env/lm_mpirun.sh', 'export C10_LM_ENV=mpirun\n')
         _write(self.bin + '/mpirun', MPIRUN_SH % {'obs': self.obs}, 0o755)
+        _write(self.bin + '/radical-pilot-control',
+                                     CTRL_SH   % {'obs': self.obs}, 0o755)
         _write(self.bin + '/sleep',  SLEEP_SH % {'sleep': shutil.which(
                                      'sleep', path='/usr/bin:/bin')}, 0o755)
 
@@ -556,9 +580,12 @@ class World(object):
             rpa.ResourceManager.create = classmethod(lambda cls, *a, **kw: rm)
             os.chdir(self.psbox)
             os.environ['TMPDIR'] = self.tmp
-            os.environ['PATH']   = '%s:%s' % (os.path.dirname(sys.executable),
-                                              os.environ.get('PATH', ''))
+            os.environ['PATH']   = '%s:%s:%s' % (self.bin,
+                                   os.path.dirname(sys.executable),
+                                   os.environ.get('PATH', ''))
             pex.initialize()
+            assert pex.rp_ctrl == self.bin + '/radical-pilot-control', \
+                   pex.rp_ctrl
         finally:
             rpa.ResourceManager.create = rm_create
             os.chdir(saved_cwd)
@@ -640,6 +667,7 @@ class World(object):
         if p['stdout']   : desc['stdout']   = p['stdout']
         if p['stderr']   : desc['stderr']   = p['stderr']
         if case['name']  : desc['name']     = case['name']
+        if case['startup']: desc['startup_timeout'] = case['startup']
         return desc
 
 
@@ -731,6 +759,7 @@ class World(object):
             os.chdir(saved_cwd)
             _restore_env(saved_env)
             del rp_popen._pids[:]
+            del self.pex._to_tasks[:]
             try:
                 while True:
                     self.pex._watch_queue.get_nowait()
@@ -793,6 +822,8 @@ class World(object):
         obs['dumps']  = dumps
         obs['marks']  = marks.splitlines()
         obs['mpirun'] = (read(self.obs + '/mpirun') or b'').decode().splitlines()
+        obs['ctrl']   = (read(self.obs + '/ctrl') or b'').decode(
+                                               'utf-8', 'replace').splitlines()
         for which in ('stdout', 'stderr'):
             data = read(obs['paths'][which + '_file'])
             obs[which] = None if data is None else \
@@ -820,6 +851,7 @@ class World(object):
         print('raised     :', obs['raised'])
         print('exit status:', obs['exit'], '(timeout)' if obs['timeout'] else '')
         print('markers    :', obs['marks'])
+        print('$RP_CTRL   :', obs['ctrl'])
         print('stdout file:', obs['paths']['stdout_file'], '->', obs['stdout'])
         print('stderr file:', obs['paths']['stderr_file'], '->', obs['stderr'])
         if obs['launch_out'].strip():
@@ -861,6 +893,7 @@ SITES = {'argv'       : 'LaunchMethod._create_arg_string',
          'pre-post-commands-run'    : '_get_prep_exec',
          'exit-code'  : '_get_exec/_get_launch',
          'terminates' : '_create_exec_script',
+         'startup-notice': '_create_exec_script',
          'launcher'   : 'ResourceManager.find_launcher'}
 
 
@@ -1035,6 +1068,14 @@ def check(world, case, obs):
         fail('runs-once-per-rank', 'activity of ranks %s, task has %d ranks'
                                    % (alien, ranks))
 
+    # -- start-up notice: once, by rank 0 (the exec script of every rank is
+    #    started, whatever its pre_exec does later) ----------------------------
+    want = ['0 %s task_startup_done uid=%s' % (SID, uid)] \
+           if case['startup'] else []
+    if obs['ctrl'] != want:
+        fail('startup-notice', '$RP_CTRL called as %s (<rank> <args>), '
+                               'expected %s' % (obs['ctrl'], want))
+
     # -- stdout / stderr -------------------------------------------------------
     for which, tag in (('stdout', 'OUT'), ('stderr', 'ERR')):
         want = ['%s:%d' % (tag, r) for r in exec_ranks]
@@ -1123,10 +1164,19 @@ def gen_cases(quick):
 
         # all pairs of fields
         for f, g in itertools.combinations(names, 2):
+            if quick and ranks > 1 and f not in RANK_FIELDS \
+                                   and g not in RANK_FIELDS:
+                # quick tier, several ranks: pairs of two fields which the
+                # scripts treat alike on every rank are covered with FORK
+                continue
             cf, ff, _ = FIELDS[f]
             cg, fg, _ = FIELDS[g]
             if quick:
                 # full lists of the small fields, core lists of args / env
+                # (several ranks: the values of QUICK_MINI)
+                if ranks > 1:
+                    if f in QUICK_MINI: cf = QUICK_MINI[f]
+                    if g in QUICK_MINI: cg = QUICK_MINI[g]
                 if f in ('args', 'env'): ff = cf
                 if g in ('args', 'env'): fg = cg
             prods = [(ff, cg), (cf, fg)]
@@ -1471,7 +1521,9 @@ def run(ctx):
                  'post_exec (%d lists), GPUs per rank (%s, CUDA), cores per '
                  'rank, pre_exec_sync, exit code 0/3, task name, sandbox in '
                  '/ outside the pilot sandbox, launch script started by '
-                 'Popen._launch_task / from another directory.  Not enumerated: '
+                 'Popen._launch_task / from another directory, '
+                 'startup_timeout 0 / 5 s ($RP_CTRL is a recording stand-in).  '
+                 'Not enumerated: '
                  'pre_exec_sync with a pre_exec failing on some but not all '
                  'ranks '
                  '(barrier cannot complete without a real mpirun).  Each '
@@ -1483,7 +1535,10 @@ def run(ctx):
                               for lm, r in (LAUNCHERS_QUICK if ctx.quick
                                             else LAUNCHERS_THOROUGH)),
                     'full x core value lists (arguments and environment: '
-                    'single atoms only)' if ctx.quick else
+                    'single atoms only; with several ranks only pairs with '
+                    'at least one of %s, and 5 argument / 3 environment '
+                    'values in pairs)' % '/'.join(RANK_FIELDS)
+                    if ctx.quick else
                     'full x core value lists',
                     len(ARG_ATOMS),
                     '' if ctx.quick else '; plus %d further atoms alone and '
@@ -1520,9 +1575,10 @@ def replay(ctx, data):
     _scratch = ctx.scratch
 
     r    = data['replay']
-    case = r['case']
+    fill = lambda c: dict(copy.deepcopy(BASE), **c)       # older replay files
+    case = fill(r['case'])
     w    = World('%s/c10.replay' % ctx.scratch)
-    for h in r.get('history') or []:
+    for h in [fill(h) for h in r.get('history') or []]:
         print('earlier task:', json.dumps(h, sort_keys=True))
         w.run_case(h)
     obs     = w.run_case(case, verbose=True)
